@@ -192,7 +192,11 @@ class SymStr(object):
     def __ne__(self, o):
         return not self._cmp(o)
 
-    __hash__ = None
+    def __hash__(self):
+        # constant: dict/set membership of symbolic strings is decided by __eq__ (character-wise branches);
+        # a concrete str key has a different hash, so only use symbolic strings against symbolic keys
+        c = self.concrete()
+        return hash(c) if c is not None else 0
 
     def eq_term(self, o):
         """z3 Bool: this string equals `o` (no forking) -- for obligations."""
